@@ -169,6 +169,9 @@ func registerApps() {
 			// fixed bytes: ecdsa.GenerateKey is not a deterministic function of its
 			// reader, and parent and child processes must agree on the app ids
 			h1, h2 := sha256.Sum256([]byte(name+"/x")), sha256.Sum256([]byte(name+"/y"))
+			if name == "APP2" { // APP1 and APP2 differ in the second half of their identifiers only: whatever keys apps must take all of it
+				h1 = sha256.Sum256([]byte("APP1/x"))
+			}
 			addr := &simwallet.Address{}
 			if err := addr.UnmarshalBinary(append(h1[:], h2[:]...)); err != nil {
 				panic(err)
